@@ -76,9 +76,26 @@ def tieSet : List HeadInfo → List HeadInfo
   | [] => []
   | h0 :: rest => (h0 :: rest).takeWhile (fun h => h.scores == h0.scores)
 
+/-- `_is_same_event_for_conflict(state, winning_event, competing_event)` — REPAIRED behaviour
+    (fixes/C05-identical-event-of-different-actions.diff): equal name + arguments, and when the two events belong to two
+    DIFFERENT action instances they only agree if they start the action.  The source as it is tests `Event.is_equal`
+    alone (`sameEvAsIs`). -/
+def sameEv (w h : HeadInfo) : Bool :=
+  h.ev == w.ev &&
+    (match w.act, h.act with
+     | some b, some a => a == b || w.isStart
+     | _, _ => true)
+
+/-- `winning_event.is_equal(competing_event)` of the unpatched source -/
+def sameEvAsIs (w h : HeadInfo) : Bool := h.ev == w.ev
+
 /-- what happens to a head other than the picked one -/
 def fateOf (w h : HeadInfo) : Fate :=
-  if h.ev = w.ev then .cowin else if h.catchLbl then .caught else .aborted
+  if sameEv w h then .cowin else if h.catchLbl then .caught else .aborted
+
+/-- the same with the unpatched co-winner test -/
+def fateOfAsIs (w h : HeadInfo) : Fate :=
+  if sameEvAsIs w h then .cowin else if h.catchLbl then .caught else .aborted
 
 /-- one `for group in head_groups.values()` iteration; `c` is the outcome of `random.choice` (index mod size). -/
 def resolveGroup (one : Int) (g : List HeadInfo) (c : Nat) : List (HeadInfo × Fate) :=
